@@ -991,9 +991,10 @@ Proof.
 Qed.
 
 Definition setpar_body : block :=
-  blk [SIf (ENot (EIsInst (EVar 3) [CTexNode])) (blk [SContinue]) (blk []);
-       SAssert (ENot (EAttr (EVar 3) A_parent));
-       SSetAttr (EVar 3) A_parent (EVar 0)].
+  blk [SIf (EIsInst (EVar 3) [CTexNode])
+           (blk [SAssert (ENot (EAttr (EVar 3) A_parent));
+                 SSetAttr (EVar 3) A_parent (EVar 0)])
+           (blk [])].
 
 Lemma set3 (a b c : option value) (rest : env) x :
   exists rest', set_var (a :: b :: c :: rest) 3 x = a :: b :: c :: Some x :: rest'.
@@ -2140,6 +2141,34 @@ Ltac do_join n st r p h L N F :=
   end;
   ev; rewrite strs_of_map; cbn [option_map lift_v]; rewrite join_nil_concat; ev.
 
+(* one step of the symbolic run of TexCmd.__str__ on the live command (r, p, h): the
+   attribute reads, the truth value of self._contents, the join over self._contents,
+   str(self.args).  Written as a loop over the steps that apply, so that the proof
+   follows the generated body whatever the order and nesting of these steps is
+   (`if self._contents: .. join ..` / an unconditional join bound to a local, ...). *)
+Ltac cmd_str_step n st r p h L Fa Fb :=
+  first
+    [ rewrite (ga_raw _ _ _ _ _ L eq_refl)
+    | rewrite (ga_name_cmd _ _ _ _ _ _ _ _ L)
+    | rewrite (ga_args _ _ _ _ _ L eq_refl)
+    | rewrite (body_vals_live _ _ _ _ L eq_refl)
+    | rewrite idx_vals_nonempty;
+      match goal with
+      | |- context [negb (Nat.eqb (length (body_of ?hh)) 0)] =>
+        let v := eval cbn in (negb (Nat.eqb (length (body_of hh)) 0)) in
+        change (negb (Nat.eqb (length (body_of hh)) 0)) with v
+      end
+    | match goal with
+      | |- context [gen_loop (PVar ?x) ?fc ?fe _ ?en0 _] =>
+        rewrite (join_items (S n) st r p h true en0 x L (@eq_refl bool true) Fb fc fe
+                            (fun _ _ => eq_refl) (fun _ => eq_refl))
+      end
+    | rewrite strs_of_map
+    | rewrite join_nil_concat
+    | rewrite (gen_args_str_ok n st r p _ L eq_refl Fa)
+    | progress cbn [iter_vals truthy strs_all str_of strs_of format option_map lift_v app]
+    | progress ev ].
+
 Lemma gen_str_cmd nm a b q : Forall str_at a -> Forall str_at b -> str_at (ECmd nm a b q).
 Proof.
   intros Fa Fb n st r p L _ Hn. rewrite sdepth_unfold in Hn.
@@ -2148,16 +2177,10 @@ Proof.
   assert (Fb' : Forall (str_ok (S n)) b) by (apply str_ok_all; [exact Fb | lia]).
   rewrite call_S, (find_meth_live _ _ _ _ _ L).
   cbn [class_of_expr mro mro_find gen_e_tbl m_params m_star m_body gen_e_TexCmd_str bind_params].
-  ev. rewrite (ga_raw _ _ _ _ _ L eq_refl). ev. cbn [iter_vals].
-  rewrite (body_vals_live _ _ _ _ L eq_refl). cbn [body_of]. rewrite idx_vals_nonempty.
-  destruct b as [|c b]; cbn [length Nat.eqb negb]; ev.
-  - rewrite (ga_name_cmd _ _ _ _ _ _ _ _ L). ev. rewrite (ga_args _ _ _ _ _ L eq_refl). ev.
-    cbn [strs_all str_of]. rewrite (gen_args_str_ok n st r p _ L eq_refl Fa'). evs.
-    cbn [estr map concat args_of]. unfold estr_list. rewrite !app_nil_r. reflexivity.
-  - rewrite (ga_name_cmd _ _ _ _ _ _ _ _ L). ev. rewrite (ga_args _ _ _ _ _ L eq_refl). ev.
-    do_join (S n) st r p (ECmd nm a (c :: b) q) L (@eq_refl bool true) Fb'.
-    cbn [strs_all str_of]. rewrite (gen_args_str_ok n st r p _ L eq_refl Fa'). evs.
-    cbn [estr args_of body_of]. unfold estr_list. rewrite !app_nil_r. reflexivity.
+  destruct b as [|c b];
+    match type of L with live _ _ _ ?h => repeat cmd_str_step n st r p h L Fa' Fb' end;
+    cbn [estr args_of body_of map concat]; unfold estr_list; cbn [map concat];
+    rewrite ?app_nil_r; reflexivity.
 Qed.
 
 (* ------------------------------------------------ name / begin / end of environments *)
